@@ -289,10 +289,14 @@ func build(s *S, v *V) (rv reflect.Value, err error) {
 		switch v.K {
 		case "nil": // time.Time{}
 		case "n":
-			if !v.N.IsInt64() {
+			t, ok := instant(v.N)
+			if !ok {
 				return bad()
 			}
-			rv.Set(reflect.ValueOf(time.Unix(0, v.N.Int64()).UTC()))
+			if !v.N.IsInt64() {
+				count("time:beyond-int64-ns")
+			}
+			rv.Set(reflect.ValueOf(t))
 		default:
 			return bad()
 		}
@@ -472,7 +476,7 @@ func read(s *S, rv reflect.Value) *V {
 			return &V{K: "nil"}
 		}
 
-		return &V{K: "n", N: big.NewInt(t.UnixNano())}
+		return &V{K: "n", N: nanosOf(t)}
 	case "slice":
 		if rv.IsNil() {
 			return &V{K: "nil"}
@@ -699,8 +703,12 @@ func expect(s *S, v *V) *V {
 			return &V{K: "x"}
 		}
 	case "time":
+		// serializer.TimeToUint64 saturates on both sides: before the epoch -> 0, from 2^63 ns on -> MaxInt64
 		if v.K == "nil" || v.N.Sign() < 0 {
 			return num(0)
+		}
+		if !v.N.IsInt64() {
+			return num(math.MaxInt64)
 		}
 	case "slice", "arr":
 		if v.K == "nil" {
@@ -753,6 +761,31 @@ func expect(s *S, v *V) *V {
 	}
 
 	return &c
+}
+
+// count is r.Count of the run (set by main); build and read have no run at hand.
+var count = func(string) {}
+
+// instant is the time.Time lying n nanoseconds after the Unix epoch, for every n a time.Time can hold (the
+// seconds since the epoch must fit an int64 with room for time's internal year-1 offset): not only the int64
+// nanosecond range time.Unix(0, n) covers.
+func instant(n *big.Int) (time.Time, bool) {
+	sec, nsec := new(big.Int).DivMod(n, big.NewInt(1_000_000_000), new(big.Int)) // Euclidean: 0 <= nsec < 1e9
+	if !sec.IsInt64() || sec.Int64() > maxInstantSeconds || sec.Int64() < -maxInstantSeconds {
+		return time.Time{}, false
+	}
+
+	return time.Unix(sec.Int64(), nsec.Int64()).UTC(), true
+}
+
+// maxInstantSeconds keeps Unix()+unixToInternal inside int64 (time.Time stores seconds since year 1).
+const maxInstantSeconds = int64(1) << 62
+
+// nanosOf is the exact nanosecond count of t since the epoch (UnixNano is undefined outside 1678..2262).
+func nanosOf(t time.Time) *big.Int {
+	n := new(big.Int).Mul(big.NewInt(t.Unix()), big.NewInt(1_000_000_000))
+
+	return n.Add(n, big.NewInt(int64(t.Nanosecond())))
 }
 
 // allHard returns "bigint-range" if a big.Int outside 0 <= n < 2^256 occurs anywhere in the value: EncodeUint256
@@ -838,7 +871,7 @@ func valueInexpressible(s *S, v *V) string {
 			return "bigint-range"
 		}
 	case "time":
-		if v.K == "nil" || v.N.Sign() < 0 {
+		if v.K == "nil" || v.N.Sign() < 0 || !v.N.IsInt64() {
 			return "time-range"
 		}
 	case "slice", "arr":
